@@ -247,6 +247,35 @@ class LogicLoader:
             )
 
     @staticmethod
+    def _referenced_builtin_actions(node: StateNode) -> Set[str]:
+        """Collects the built-in action names a machine references.
+
+        Args:
+            node: The `StateNode` to start the traversal from.
+
+        Returns:
+            Set[str]: Action types that are built-in action names.
+        """
+        found: Set[str] = set()
+        transitions = [t for tl in node.on.values() for t in tl]
+        transitions.extend(t for tl in node.after.values() for t in tl)
+        if node.on_done:
+            transitions.append(node.on_done)
+        for invoke_def in node.invoke:
+            transitions.extend(invoke_def.on_done + invoke_def.on_error)
+        action_defs = list(node.entry) + list(node.exit)
+        for transition in transitions:
+            action_defs.extend(transition.actions)
+        for action_def in action_defs:
+            if is_builtin_action(action_def.type) and not is_spawn_action(
+                action_def.type
+            ):
+                found.add(action_def.type)
+        for child_node in node.states.values():
+            found |= LogicLoader._referenced_builtin_actions(child_node)
+        return found
+
+    @staticmethod
     def _collect_guard_names(guard_def: Any, guards: Set[str]) -> None:
         """Collects the user-implemented guard names a guard depends on.
 
@@ -396,6 +425,16 @@ class LogicLoader:
                         "no implementation was found in the provided modules "
                         "or providers."
                     )
+
+        # 🎭 A user implementation takes precedence over a built-in action of
+        #    the same name (`log`, `assign`, ...). Built-in names are never
+        #    REQUIRED, but when the sources do supply one it must be bound —
+        #    otherwise discovery silently ran the built-in instead.
+        for builtin_name in self._referenced_builtin_actions(temp_machine):
+            if builtin_name in logic_map:
+                discovered_logic["actions"][builtin_name] = logic_map[
+                    builtin_name
+                ]
 
         total = sum(len(d) for d in discovered_logic.values())
         logger.info(
